@@ -139,6 +139,34 @@ def _load_is_contained(ctx, m, f, loads):
                   'not valid UTF-8 (a flipped bit, a latin-1 hand edit) raises UnicodeDecodeError out of loadPersistentData - the module can not be created, the node does not start', f)
 
 
+@rule('C17.R1d', min_instances=1)
+def no_rename_of_an_open_file(ctx):
+    """wherever frappy/persistent.py renames a temporary file onto its target (in the mix-in or in a helper / context manager
+    it uses): the rename does not sit inside the `with open(<that file>, 'w')` block - the data would still be in the write
+    buffer, the target would be replaced by an empty / partial file until the block ends (and for good when the process dies
+    or the flush fails there)"""
+    m = ctx.m
+    mod = m.modules.get('frappy.persistent')
+    n = 0
+    for q, f in sorted(m.functions.items()):
+        if f.module is not mod:
+            continue
+        for c in calls_in(f.node):
+            if call_name(c) not in ('os.rename', 'os.replace', 'shutil.move') or not c.args:
+                continue
+            n += 1
+            ctx.analysed(f)
+            srcname = src(c.args[0])
+            inside = [w for w in ancestors(c) if isinstance(w, ast.With) and any(
+                isinstance(it.context_expr, ast.Call) and dotted(it.context_expr.func) == 'open' and it.context_expr.args
+                and src(it.context_expr.args[0]) == srcname and _is_write_mode(it.context_expr) for it in w.items)]
+            ctx.check(not inside, f'{f.qualname}:the temporary file is closed before it is renamed', c, 'rename outside the with-open block',
+                      f'`{src(c)}` runs inside `with open({srcname}, ...)`: the file is renamed onto the persistent file before it is flushed and closed - a crash '
+                      'right after the rename (or a failing close: disk full) leaves an empty or partial persistent file, the previous snapshot is gone', f)
+    if not n:
+        raise AnchorMissing('no rename onto the persistent file found in frappy/persistent.py', violation='frappy.persistent:atomic replace by rename')
+
+
 @rule('C17.R3', min_instances=2)
 def tolerant_load(ctx):
     """the value returned by json.load is RAW: using it as a mapping needs a dict kind guard or a covering handler;
